@@ -579,3 +579,25 @@ def interp(body, start, term_env, stop, max_steps=400):
         else:
             return 'end:' + k, path
     return 'too-long', path
+
+
+def must_pass(body, start, target):
+    """every non-error path from block `start` to a return passes through block `target`
+    (paths that set an error return value may bypass it)"""
+    cfg = body.cfg
+    errb = set()
+    for d in defs_in(body, cfg.reach):
+        if d[0] == 0 and not d[1] and all(is_err_term(a) for a in alts(d[2])):
+            errb.add(d[3])
+    seen = set()
+    st = [start]
+    while st:
+        x = st.pop()
+        if x in seen or x == target or x in errb:
+            continue
+        seen.add(x)
+        t = body.blocks[x]['term']
+        if t and t['k'] == 'return':
+            return False
+        st.extend(cfg.succ[x])
+    return True
